@@ -516,6 +516,40 @@ def rule_s(rep, src):
             rep.violation("S", key, "the arms of %s compute different operators: %s" % (f.name, u), f.where())
 
 
+def rule_t(rep, src):
+    """Products of interval sets (the domains and partitions of multivariate functions) are combined coordinate by coordinate."""
+    import re as _re
+
+    rep.rule(
+        "T",
+        "data_type/product.rs, `impl IntervalsProduct for Term<Intervals<B>, Next>`: `union` / `intersection` return Term::from_value_next(self.value OP other.value, self.next.OP(&other.next)) "
+        "- the same operation on the head coordinate and, recursively, on the tail (clones and borrows aside)",
+        floor=2,
+        necessary="the partition of a bivariate function is `set ∩ piece` computed with this intersection: if the tail coordinate is not intersected, x / y with y in [-2, 3] is treated as monotone across the "
+        "pole y = 0 and only its corners are evaluated ([1,2] / [-2,3] typed [-1, 0.667])",
+    )
+    PF = "data_type/product.rs"
+    fs = [f for f in src.find_fns(file=PF) if (f.self_ty or "").replace(" ", "").startswith("Term<Intervals<B>,Next>") and (f.trait or "").startswith("IntervalsProduct") and f.name in ("union", "intersection")]
+    if len(fs) != 2:
+        raise Anchor("impl IntervalsProduct for Term<Intervals<B>, Next>::{union, intersection}: found %d" % len(fs))
+    norm = lambda e: _re.sub(r"\.clone\(\)|&|\s", "", show(e, 0))
+    for f in fs:
+        key = "Term<Intervals<B>, Next>::%s" % f.name
+        other = [p["pat"]["name"] for p in f.params if not p.get("self")]
+        t = f.body
+        while t["k"] == "block" and len(t["stmts"]) == 1 and t["stmts"][0]["k"] == "expr":
+            t = t["stmts"][0]["e"]
+        ok = False
+        got = show(t, 120)
+        if t["k"] == "call" and (path_of(t["f"]) or "").split("::")[-1] == "from_value_next" and len(t["args"]) == 2 and other:
+            o = other[0]
+            a, b = norm(t["args"][0]), norm(t["args"][1])
+            ok = a == "self.value.%s(%s.value)" % (f.name, o) and b == "self.next.%s(%s.next)" % (f.name, o)
+        rep.instance("T", key, {"fn": f.name, "returns": got})
+        if not ok:
+            rep.violation("T", key, "%s of a product is not the coordinate-wise %s of head and tail: %s" % (f.name, f.name, got), f.where())
+
+
 def rule_d(rep, src):
     """Domain guard of the two `super_image`s that compute a range from the set: Pointwise and PartitionnedMonotonic."""
     from .core import walk_guards, path_of, find
@@ -630,6 +664,7 @@ def run(rep):
     rule_s(rep, src)
     o3(rep, src)
     rule_d(rep, src)
+    rule_t(rep, src)
     from .util_enum import n1
 
     n1(rep, src)
